@@ -31,6 +31,7 @@ const (
 	kDate
 	kText
 	kMixedBig // integers beyond 2^53 mixed with floats: outside the proved domain (F18)
+	kBigInt   // integers only, many of them beyond 2^53 and adjacent (their float64 images coincide)
 )
 
 func colVal(g *hc.Gen, kind int) value.Primary {
@@ -52,6 +53,9 @@ func colVal(g *hc.Gen, kind int) value.Primary {
 			return value.NewFloat([]float64{1e300, -1e300, 5e-324, 0.1, 0.30000000000000004}[g.Intn(5)])
 		}
 		return value.NewInteger(int64(g.Intn(3)))
+	case kBigInt:
+		base := []int64{1 << 53, 1 << 60, math.MaxInt64 - 8, -(1 << 53) - 8, math.MinInt64 + 1}[g.Intn(5)]
+		return value.NewInteger(base + int64(g.Intn(8)))
 	case kMixedBig:
 		switch g.Intn(3) {
 		case 0:
@@ -110,6 +114,9 @@ func run(seed int64, n int, dir string, _ []string) {
 		mixed := false
 		for j := range kinds {
 			kinds[j] = g.Intn(3)
+			if g.Intn(6) == 0 {
+				kinds[j] = kBigInt
+			}
 			if g.Intn(25) == 0 {
 				kinds[j] = kMixedBig
 				mixed = true
